@@ -58,7 +58,7 @@ def band(draw, max_chans=64, min_chans=1):
         lo = min(ch["fch1"], ch["fch1"] + (nchans - 1) * ch["foff"])
         hi = max(ch["fch1"], ch["fch1"] + (nchans - 1) * ch["foff"])
         ref = lo + k * (hi - lo)
-    return {"nchans": nchans, "fch1": ch["fch1"], "foff": ch["foff"], "tsamp": tsamp, "ref": ref}
+    return {"nchans": nchans, "fch1": ch["fch1"], "foff": ch["foff"], "tsamp": tsamp, "ref": ref, "subsample_dm": draw(st.booleans())}
 
 
 def mk_header(b, nsamples, nbits=32, path="x.fil"):
@@ -71,6 +71,9 @@ def mk_header(b, nsamples, nbits=32, path="x.fil"):
 def dm_for_span(b, m, sign):
     f0 = b["fch1"]
     f1 = b["fch1"] + (b["nchans"] - 1) * b["foff"]
+    if m == 0 and b.get("subsample_dm") and b["nchans"] > 1:
+        # a real DM whose sweep across the band stays below half a sample: all delays round to zero
+        return sign * 0.3 * b["tsamp"] / (K * abs(f1**-2 - f0**-2))
     if b["nchans"] == 1 or m == 0:
         return 0.0 if m == 0 else sign * 10.0
     return sign * m * b["tsamp"] / (K * abs(f1**-2 - f0**-2))
@@ -291,7 +294,7 @@ def check_blocks(case, ctx):
 @st.composite
 def strat_files(draw, tier):
     mx = 40 if tier == "quick" else 100
-    lay = draw(vs.layout(depths=(8, 32, 2), max_samples=mx, min_samples=4, max_files=2, max_chans=12, max_chan_units=2, min_chans=2))
+    lay = draw(vs.layout(depths=(8, 32, 2), max_samples=mx, min_samples=4, max_files=3, max_chans=12, max_chan_units=2, min_chans=2))
     lay["data_kind"] = "f32int" if lay["nbits"] == 32 else "full"
     b = draw(band(min_chans=lay["nchans"], max_chans=lay["nchans"]))
     b["nchans"] = lay["nchans"]
